@@ -423,13 +423,31 @@ class _LinalgProxy:
         return self._batched(a, one, True)
 
     def solve(self, a, b):
+        # numpy wraps the result in the ndarray subclass of its inputs (FeArray in, FeArray out)
+        wrap = next((type(x) for x in (a, b) if isinstance(x, _np.ndarray) and type(x) not in (_np.ndarray, SArr)), None)
+        a0, b0 = a, b
         a = _np.asarray(a)
         b = _np.asarray(b)
         if not has_sym(a) and not has_sym(b):
-            return _np.linalg.solve(demote(a), demote(b))
+            if a.dtype != object and b.dtype != object:
+                return _np.linalg.solve(a0, b0)  # untouched: numpy keeps the subclass of its inputs
+            out = _np.linalg.solve(demote(a), demote(b))
+            return out.view(wrap) if wrap is not None else out
         USED_STUBS.add("np.linalg.solve(symbolic) -> exact fraction-free elimination")
         if a.ndim != 2:
-            raise OutOfReach("batched symbolic np.linalg.solve")
+            # stacks of systems (..., n, n) x (..., n, m): one exact elimination per leading index (matrix right-hand sides only)
+            if b.ndim != a.ndim or b.shape[:-2] != a.shape[:-2]:
+                raise OutOfReach("batched symbolic np.linalg.solve with broadcasting / vector right-hand sides")
+            out = _np.empty(b.shape, dtype=object)
+            for idx in _np.ndindex(*a.shape[:-2]):
+                ai, bi = a[idx], b[idx]
+                if not has_sym(ai) and not has_sym(bi):
+                    out[idx] = _np.linalg.solve(demote(ai), demote(bi))
+                    continue
+                Xi, det = linsolve.solve_sym(ai, bi)
+                _record_nonzero(det, "matrix of np.linalg.solve is non-singular")
+                out[idx] = Xi
+            return out.view(wrap) if wrap is not None else sarr(out)
         X, det = linsolve.solve_sym(a, b)
         _record_nonzero(det, "matrix of np.linalg.solve is non-singular")
         return X[:, 0] if b.ndim == 1 else X
